@@ -771,6 +771,9 @@ class Screen(BaseScreen, RealTerminal):
             # we need another segment
             y_attr, y_cs, nlast_text = row[-2]
             nlast_cols = str_util.calc_width(nlast_text, 0, len(nlast_text))
+            if nlast_cols == 0:
+                # only zero-width characters before Z: no Y to slide it into place with
+                return row, 0, None
             z_col += nlast_cols
             nlast_offs, y_col = str_util.calc_text_pos(nlast_text, 0, len(nlast_text), nlast_cols - 1)
             y_text = nlast_text[nlast_offs:]
@@ -780,6 +783,9 @@ class Screen(BaseScreen, RealTerminal):
             z_text = last_text[last_offs:]
             y_attr, y_cs = z_attr, z_cs
             nlast_cols = str_util.calc_width(last_text, 0, last_offs)
+            if nlast_cols == 0:
+                # only zero-width characters before Z: no Y to slide it into place with
+                return row, 0, None
             nlast_offs, y_col = str_util.calc_text_pos(last_text, 0, last_offs, nlast_cols - 1)
             y_text = last_text[nlast_offs:last_offs]
             if nlast_offs:
